@@ -154,7 +154,12 @@ func checkEncoding(c *enumx.Ctx, s spec) {
 			want = append(want, t)
 		}
 		if len(s.Keys) > 0 {
-			k := strings.Join(s.Keys, "\x01")
+			// a -k argument is a comma separated list (as -S is): "a,b" are two keys
+			var flat []string
+			for _, k := range s.Keys {
+				flat = append(flat, strings.Split(k, ",")...)
+			}
+			k := strings.Join(flat, "\x01")
 			want = append(want, trip{uapi("AUDIT_FILTERKEY"), uapi("AUDIT_EQUAL"), uint32(len(k)), true, &k, "keys", "keys"})
 		}
 		if int(w.FieldCount) != len(want) {
@@ -528,6 +533,49 @@ func forRuleSpecs(c *enumx.Ctx, visit func(c *enumx.Ctx, s spec)) {
 			continue
 		}
 		visit(c, spec{List: "exit", Action: "always", Syscalls: []string{sc}})
+	}
+	// (k) string filters whose value names something that EXISTS on this machine (a directory, a file, a
+	// device, a link): the field code is the one of the NAME used (path -> AUDIT_WATCH, dir -> AUDIT_DIR, exe ...),
+	// whatever is on disk
+	for _, fld := range []string{"path", "dir", "exe"} {
+		for _, v := range []string{"/etc", "/etc/passwd", "/tmp", "/", "/dev/null", "/proc/self", "/bin", "/usr/bin/env", "/nonexistent/x"} {
+			for _, op := range []string{"=", "!="} {
+				if !c.Mine() {
+					continue
+				}
+				visit(c, spec{List: "exit", Action: "always", Filters: []filt{{false, fld, op, v}}, Syscalls: []string{"open"}, Keys: []string{"k"}})
+				visit(c, spec{List: "exit", Action: "always", Filters: []filt{{false, "uid", "=", "0"}, {false, fld, op, v}}})
+			}
+		}
+	}
+	// (l) syscall SETS with a shape: whole mask words (0..31, 32..63, 0..63, 0..95), whole words minus one bit,
+	// a full first word plus one more, every second syscall - by number, in one -S list
+	rng := func(a, b int, skip int) string {
+		var p []string
+		for i := a; i <= b; i++ {
+			if i != skip {
+				p = append(p, strconv.Itoa(i))
+			}
+		}
+		return strings.Join(p, ",")
+	}
+	for _, set := range []string{rng(0, 31, -1), rng(32, 63, -1), rng(0, 63, -1), rng(0, 95, -1), rng(0, 31, 7), rng(0, 31, 31), rng(0, 31, 0), rng(0, 31, -1) + ",59", rng(0, 30, -1), rng(1, 32, -1), rng(0, 32, -1), rng(64, 127, -1), rng(0, 31, -1) + "," + rng(64, 95, -1), rng(2016, 2047, -1), rng(0, 255, -1)} {
+		for _, archF := range [][]filt{nil, {{false, "arch", "=", "b64"}}} {
+			if !c.Mine() {
+				continue
+			}
+			visit(c, spec{List: "exit", Action: "always", Filters: archF, Syscalls: []string{set}, Keys: []string{"k"}})
+		}
+	}
+	// (m) several keys of which one is empty, holds a comma, starts with a dash, repeats
+	for _, ks := range [][]string{{"a", ""}, {"", "a"}, {"", ""}, {"a", "b,c"}, {"a,b", "c"}, {"-x", "a"}, {"a", "-k"}, {"a", "a"}, {"a", "", "b"}, {"a", "b", "c", "d"}} {
+		for _, fs := range [][]filt{nil, {{false, "uid", "=", "0"}}} {
+			if !c.Mine() {
+				continue
+			}
+			visit(c, spec{List: "exit", Action: "always", Filters: fs, Syscalls: []string{"open"}, Keys: ks})
+			visit(c, spec{List: "task", Action: "never", Filters: fs, Keys: ks})
+		}
 	}
 	// (h) the same text in two places: key filters and -k keys over {a, b} in every arrangement - a rule
 	// whose last filter is -F key=a and whose -k key is a, too, still carries both triples
